@@ -62,6 +62,10 @@ func (p *prefixedReadSeekCloser) Read(b []byte) (int, error) {
 	if prefBytes > 0 {
 		k, _ := p.prefix.Read(b[:prefBytes]) // io.EOF can't happen because of prefBytes and bytes.Reader can't have other errors.
 		n = k
+		if prefBytes == len(b) {
+			// do not touch the rest: it may already be exhausted while the prefix is not
+			return n, nil
+		}
 	}
 
 	k, err := p.rest.Read(b[prefBytes:])
@@ -79,6 +83,10 @@ func (p *prefixedReadSeekCloser) Seek(offset int64, whence int) (int64, error) {
 	_, err := p.prefix.Seek(skipBytes, whence)
 	if err != nil {
 		return 0, fmt.Errorf("seeking bytes: %w", err)
+	}
+
+	if offset == skipBytes {
+		return 0, nil
 	}
 
 	return p.rest.Seek(offset-skipBytes, whence)
